@@ -99,10 +99,13 @@ def pctDecode : Bytes → Bytes
     else c :: pctDecode (a :: b :: rest)
   | c :: rest => c :: pctDecode rest
 
-/-- `urlencoding::decode`: `Err` when the decoded bytes are not UTF-8 -/
+/-- `urlencoding::decode`: without a `%` the input `&str` itself is returned (`Cow::Borrowed`); otherwise
+    `Err` when the decoded bytes are not UTF-8 -/
 def urlDecode (s : Bytes) : Option Bytes :=
-  let d := pctDecode s
-  if utf8Valid d then some d else none
+  if s.all (· ≠ 37) then some s
+  else
+    let d := pctDecode s
+    if utf8Valid d then some d else none
 
 /-- split at every `sep` (`slice::split`) -/
 def splitOn (sep : UInt8) : Bytes → List Bytes
@@ -254,24 +257,32 @@ def subresLoop (qs : Pairs) : List Bytes → Bool → Bytes
     let vs := getAll qs q
     subresItems q vs isFirst ++ subresLoop qs rest (isFirst && vs.isEmpty)
 
-/-- `create_string_to_sign(mode, method, uri_path, qs, headers, virtual_host_bucket)`;
-    `hs` is the `OrderedHeaders` vector, `qs` the `OrderedQs` vector -/
-def stringToSign (mode : Mode) (method uriPath : Bytes) (qs : Option Pairs) (hs : Pairs)
-    (vhBucket : Option Bytes) : Bytes :=
-  let md5 := (getUnique hs (v2b!"content-md5")).getD []
-  let ctype := (getUnique hs (v2b!"content-type")).getD []
-  let dateLine := match mode with
-    | .headerAuth =>
-      let date := (getUnique hs (v2b!"date")).getD []
-      if (getUnique hs (v2b!"x-amz-date")).isSome then [] else date
-    | .presignedUrl => ((qs.bind fun q => getUnique q (v2b!"Expires"))).getD []
+/-- the `match mode { … }` block: `{Date}` or `{Expires}` -/
+def dateLine (mode : Mode) (qs : Option Pairs) (hs : Pairs) : Bytes :=
+  match mode with
+  | .headerAuth =>
+    let date := (getUnique hs (v2b!"date")).getD []
+    if (getUnique hs (v2b!"x-amz-date")).isSome then [] else date
+  | .presignedUrl => ((qs.bind fun q => getUnique q (v2b!"Expires"))).getD []
+
+/-- `{CanonicalizedResource}` -/
+def resource (uriPath : Bytes) (qs : Option Pairs) (vhBucket : Option Bytes) : Bytes :=
   let bucket := match vhBucket with
     | some b => 47 :: b
     | none => []
   let sub := match qs with
     | some q => subresLoop q includedQuery true
     | none => []
-  method ++ 10 :: md5 ++ 10 :: ctype ++ 10 :: dateLine ++ 10 :: amzLoop hs hs [] ++ bucket ++ uriPath ++ sub
+  bucket ++ uriPath ++ sub
+
+/-- `create_string_to_sign(mode, method, uri_path, qs, headers, virtual_host_bucket)`;
+    `hs` is the `OrderedHeaders` vector, `qs` the `OrderedQs` vector -/
+def stringToSign (mode : Mode) (method uriPath : Bytes) (qs : Option Pairs) (hs : Pairs)
+    (vhBucket : Option Bytes) : Bytes :=
+  let md5 := (getUnique hs (v2b!"content-md5")).getD []
+  let ctype := (getUnique hs (v2b!"content-type")).getD []
+  method ++ 10 :: md5 ++ 10 :: ctype ++ 10 :: dateLine mode qs hs ++ 10 :: amzLoop hs hs [] ++
+    resource uriPath qs vhBucket
 
 /-- `calculate_signature`: `base64(hmac_sha1(secret_key, string_to_sign))` -/
 def calcSignature (hmac : Bytes → Bytes → Bytes) (b64 : Bytes → Bytes) (secret sts : Bytes) : Bytes :=
@@ -329,12 +340,19 @@ def checkPresigned (hmac : Bytes → Bytes → Bytes) (b64 : Bytes → Bytes) (l
         if calcSignature hmac b64 secret sts ≠ p.signature then .reject .SignatureDoesNotMatch
         else .accept p.accessKey
 
+/-- `if let Some(qs) = self.qs { if qs.has("Signature") { … } }`: the query that sends `v2_check`
+    into the presigned branch -/
+def presignedQs (qs : Option Pairs) : Option Pairs :=
+  match qs with
+  | some q => if has q (v2b!"Signature") then some q else none
+  | none => none
+
 /-- `v2_check`: the presigned branch is taken as soon as the query *has* `Signature`, the header branch
     when the unique `authorization` value parses as `AWS ak:sig`; otherwise `None` (V4 is tried next,
     so V2 takes precedence over V4) -/
 def v2Check (hmac : Bytes → Bytes → Bytes) (b64 : Bytes → Bytes) (lookup : Bytes → Option Bytes)
     (nowNs : Int) (c : Ctx) : Verdict :=
-  match (match c.qs with | some q => if has q (v2b!"Signature") then some q else none | none => none) with
+  match presignedQs c.qs with
   | some q => checkPresigned hmac b64 lookup nowNs c q
   | none =>
     match getUnique c.hs (v2b!"authorization") with
